@@ -6,6 +6,7 @@ over ALL objects / ALL streams of the model (ids are unbounded integers, which c
 the property's domain (INT64_MIN, INT64_MAX]).
 -/
 import Osmium.Lemmas.Order
+import Osmium.Lemmas.SrcTie
 
 namespace Osmium.Order.C16
 
@@ -226,5 +227,110 @@ example : objLt ⟨1, -5, 2, 1000, true⟩ ⟨1, 3, 1, 2000, true⟩ = true := b
 example : objLtRev ⟨1, 3, 2, 1000, true⟩ ⟨1, 3, 1, 900, true⟩ = true := by decide
 example : accepts [(.node, 0), (.node, -1), (.node, -7), (.node, 3), (.way, -2), (.relation, 1)] = true := by decide
 example : accepts [(.node, 3), (.node, -1)] = false := by decide
+
+/-! ### source ties (tools/cxx2lean.py): the functions REGENERATED from /repo's C++ source on every run
+    (Osmium/Generated/Src.lean) equal the hand-written model functions the theorems above are about.
+    `SrcTie.objOfSrc` reads the members `m_type`, `m_id`, `m_version`, `m_timestamp`, `m_deleted` of the translated
+    `OSMObject` record; `typed` = every member holds a value of its C++ type. -/
+
+section SrcTies
+open Osmium.Generated Osmium.CxxSem Osmium.SrcTie
+
+/-- `id_order::operator()` — for ALL integers (no arithmetic, nothing can wrap or be undefined) -/
+theorem src_tie_id_order (a b : Int) :
+    Src.ObjectComparisons.id_order.op_call_i64_i64 a b = idOrder a b := by
+  unfold Src.ObjectComparisons.id_order.op_call_i64_i64 idOrder
+  by_cases h1 : b = 0 <;> by_cases h2 : a = 0 <;> by_cases h3 : a < 0 <;> by_cases h4 : b > 0 <;>
+    by_cases h5 : b < 0 <;> simp [*, CxxSem.lt, CxxSem.gt, CxxSem.eq] <;> omega
+
+/-- `object_equal_type_id::operator()(const OSMObject&, const OSMObject&)` -/
+theorem src_tie_object_equal_type_id (l r : Src.Object.OSMObject)
+    (hl : Src.Object.OSMObject.typed l = true) (hr : Src.Object.OSMObject.typed r = true) :
+    Src.ObjectComparisons.object_equal_type_id.op_call_OSMObject_OSMObject l r = objEqTypeId (objOfSrc l) (objOfSrc r) := by
+  have fl := obj_typed_facts l hl
+  have fr := obj_typed_facts r hr
+  rw [Bool.eq_iff_iff]
+  simp [Src.ObjectComparisons.object_equal_type_id.op_call_OSMObject_OSMObject, objEqTypeId, objOfSrc,
+    Src.Item.Item.type, Src.Object.OSMObject.id]
+  omega
+
+/-- `operator==(const OSMObject&, const OSMObject&)` = `object_equal_type_id_version` -/
+theorem src_tie_object_eq (l r : Src.Object.OSMObject)
+    (hl : Src.Object.OSMObject.typed l = true) (hr : Src.Object.OSMObject.typed r = true) :
+    Src.Object.op_eq_OSMObject_OSMObject l r = objEq (objOfSrc l) (objOfSrc r) := by
+  have fl := obj_typed_facts l hl
+  have fr := obj_typed_facts r hr
+  rw [Bool.eq_iff_iff]
+  simp [Src.Object.op_eq_OSMObject_OSMObject, objEq, objOfSrc,
+    Src.Item.Item.type, Src.Object.OSMObject.id, Src.Object.OSMObject.version]
+  omega
+
+/-- `object_order_type_id_version_without_timestamp` (the `const_tie(...) < const_tie(...)` comparison) -/
+theorem src_tie_object_lt_no_ts (l r : Src.Object.OSMObject)
+    (hl : Src.Object.OSMObject.typed l = true) (hr : Src.Object.OSMObject.typed r = true) :
+    Src.ObjectComparisons.object_order_type_id_version_without_timestamp.op_call_OSMObject_OSMObject l r
+      = objLtNoTs (objOfSrc l) (objOfSrc r) := by
+  have fl := obj_typed_facts l hl
+  have fr := obj_typed_facts r hr
+  rw [Bool.eq_iff_iff]
+  simp only [objLtNoTs, objOfSrc]
+  by_cases p1 : 0 < l.m_id <;> by_cases p2 : 0 < r.m_id <;>
+  simp [Src.ObjectComparisons.object_order_type_id_version_without_timestamp.op_call_OSMObject_OSMObject, lexLt, b2n,
+    Src.Item.Item.type, Src.Object.OSMObject.id, Src.Object.OSMObject.version, positive_id_eq l hl, positive_id_eq r hr, *] <;>
+  omega
+
+/-- `operator<(const OSMObject&, const OSMObject&)` = `object_order_type_id_version` -/
+theorem src_tie_object_lt (l r : Src.Object.OSMObject)
+    (hl : Src.Object.OSMObject.typed l = true) (hr : Src.Object.OSMObject.typed r = true) :
+    Src.Object.op_lt_OSMObject_OSMObject l r = objLt (objOfSrc l) (objOfSrc r) := by
+  have fl := obj_typed_facts l hl
+  have fr := obj_typed_facts r hr
+  rw [Bool.eq_iff_iff]
+  simp only [objLt, maskTs, objOfSrc]
+  have tl : l.m_timestamp.m_timestamp = 0 ∨ (0 < l.m_timestamp.m_timestamp ∧ l.m_timestamp.m_timestamp ≠ 0) := by omega
+  have tr : r.m_timestamp.m_timestamp = 0 ∨ (0 < r.m_timestamp.m_timestamp ∧ r.m_timestamp.m_timestamp ≠ 0) := by omega
+  by_cases p1 : 0 < l.m_id <;> by_cases p2 : 0 < r.m_id <;>
+  rcases tl with t1 | ⟨t1, t1'⟩ <;> rcases tr with t2 | ⟨t2, t2'⟩ <;>
+  simp [Src.Object.op_lt_OSMObject_OSMObject, lexLt, b2n, Src.Timestamp.op_lt_Timestamp_Timestamp,
+    Src.Timestamp.Timestamp.op_unsigned_int, Src.Timestamp.Timestamp.valid, Src.Timestamp.Timestamp.ctor, Src.Object.OSMObject.timestamp,
+    Src.Item.Item.type, Src.Object.OSMObject.id, Src.Object.OSMObject.version, positive_id_eq l hl, positive_id_eq r hr, *] <;>
+  omega
+
+/-- `object_order_type_id_reverse_version` -/
+theorem src_tie_object_lt_rev (l r : Src.Object.OSMObject)
+    (hl : Src.Object.OSMObject.typed l = true) (hr : Src.Object.OSMObject.typed r = true) :
+    Src.ObjectComparisons.object_order_type_id_reverse_version.op_call_OSMObject_OSMObject l r = objLtRev (objOfSrc l) (objOfSrc r) := by
+  have fl := obj_typed_facts l hl
+  have fr := obj_typed_facts r hr
+  rw [Bool.eq_iff_iff]
+  simp only [objLtRev, maskTs, objOfSrc]
+  have tl : l.m_timestamp.m_timestamp = 0 ∨ (0 < l.m_timestamp.m_timestamp ∧ l.m_timestamp.m_timestamp ≠ 0) := by omega
+  have tr : r.m_timestamp.m_timestamp = 0 ∨ (0 < r.m_timestamp.m_timestamp ∧ r.m_timestamp.m_timestamp ≠ 0) := by omega
+  by_cases p1 : 0 < l.m_id <;> by_cases p2 : 0 < r.m_id <;>
+  rcases tl with t1 | ⟨t1, t1'⟩ <;> rcases tr with t2 | ⟨t2, t2'⟩ <;>
+  cases v1 : l.m_deleted <;> cases v2 : r.m_deleted <;>
+  simp [Src.ObjectComparisons.object_order_type_id_reverse_version.op_call_OSMObject_OSMObject, lexLt, b2n, Src.Timestamp.op_lt_Timestamp_Timestamp,
+    Src.Timestamp.Timestamp.op_unsigned_int, Src.Timestamp.Timestamp.valid, Src.Timestamp.Timestamp.ctor, Src.Object.OSMObject.timestamp,
+    Src.Object.OSMObject.visible, Src.Object.OSMObject.deleted,
+    Src.Item.Item.type, Src.Object.OSMObject.id, Src.Object.OSMObject.version, positive_id_eq l hl, positive_id_eq r hr, *] <;>
+  omega
+
+/-- the only undefined behaviour in the three orderings is `std::abs(INT64_MIN)` in `positive_id()`:
+    the translated no-UB condition is exactly the model's id domain (INT64_MIN, INT64_MAX] -/
+theorem src_defined_object_lt (l r : Src.Object.OSMObject)
+    (hl : Src.Object.OSMObject.typed l = true) (hr : Src.Object.OSMObject.typed r = true) :
+    Src.Object.op_lt_OSMObject_OSMObject_defined l r = true ↔
+      l.m_id ≠ -9223372036854775808 ∧ r.m_id ≠ -9223372036854775808 := by
+  have fl := obj_typed_facts l hl
+  have fr := obj_typed_facts r hr
+  simp only [Src.Object.op_lt_OSMObject_OSMObject_defined, Src.Object.OSMObject.positive_id_defined, Bool.and_eq_true, inS_iff]
+  omega
+
+-- the hypotheses are satisfiable: a typed object, and one on which the comparison is defined
+example : Src.Object.OSMObject.typed ⟨⟨⟨⟨⟩, 40, 1, 0, 0, 0⟩⟩, -17, false, 3, ⟨1000⟩, 0, 0⟩ = true := by decide
+example : Src.Object.op_lt_OSMObject_OSMObject_defined ⟨⟨⟨⟨⟩, 40, 1, 0, 0, 0⟩⟩, -17, false, 3, ⟨1000⟩, 0, 0⟩
+    ⟨⟨⟨⟨⟩, 40, 1, 0, 0, 0⟩⟩, 5, false, 1, ⟨0⟩, 0, 0⟩ = true := by decide
+
+end SrcTies
 
 end Osmium.Order.C16
